@@ -126,6 +126,41 @@ Route(cf, call) ==
                           IN [pos |-> x.pos, neg |-> x.neg, posNone |-> FALSE, negNone |-> FALSE, comb |-> "clamp"]
 
 (***************************************************************************)
+(* Mech: one trainer, several registered cells.                            *)
+(*                                                                         *)
+(* A trainer is constructed with default hyperparameters df = [r1, r2];    *)
+(* register_cell(name, cell, **kwargs) builds the cell's own state from    *)
+(* the defaults OVERRIDDEN by the keyword arguments: a cell is [o1, o2]    *)
+(* with o a sign class or Inherit.  forward(...) iterates over the cells   *)
+(* `for cell, state, monitors in self:`; the loop below carries the        *)
+(* variables the code's loop body reads (env): the call's reward, scale    *)
+(* and target.  Each cell's routing must come from ITS OWN state, the      *)
+(* reward is scaled ONCE for every cell, and a homeostasis cell without a  *)
+(* call-level target uses ITS OWN default target.                          *)
+(***************************************************************************)
+Inherit == 2
+Eff(d, o) == IF o = Inherit THEN d ELSE o
+CellCf(k, df, cell) == [k |-> k, r1 |-> Eff(df.r1, cell.o1), r2 |-> Eff(df.r2, cell.o2)]
+
+\* what the loop body of forward() sees for cell j: state = the cell's own configuration;
+\* sx = how many times |scale| multiplies the magnitudes; tg = whose target rate is used
+CellOut(k, df, cell, call, env) ==
+  [res |-> Route(CellCf(k, df, cell), call),
+   sx |-> IF k \in KGe3 \cup KLt3 THEN env.sx ELSE 0,
+   tg |-> IF k \in KHomeo THEN (IF env.tg = "call" THEN "call" ELSE "own") ELSE "-"]
+
+\* the environment handed to the next iteration: nothing the next cell reads is rebound
+NextEnv(k, env) == env
+
+RECURSIVE LoopFrom(_, _, _, _, _, _)
+LoopFrom(k, df, cells, call, env, j) ==
+  IF j > Len(cells) THEN <<>>
+  ELSE <<CellOut(k, df, cells[j], call, env)>> \o LoopFrom(k, df, cells, call, NextEnv(k, env), j + 1)
+
+Env0(call) == [sx |-> 1, tg |-> IF "tg" \in DOMAIN call THEN call.tg ELSE "-"]
+Forward(k, df, cells, call) == LoopFrom(k, df, cells, call, Env0(call), 1)
+
+(***************************************************************************)
 (* Abs: the signed rule                                                    *)
 (***************************************************************************)
 Rate(cf, t) == IF t = "T1" THEN cf.r1 ELSE cf.r2
